@@ -619,6 +619,15 @@ func (w *crashWorld) realKill(st simkit.Step) {
 			return
 		}
 		w.d = d0
+		// the close/reopen above rewrote the directory (memtable flushed to a table, new WAL file):
+		// the snapshots taken before it are no longer predecessors of the live store
+		if w.prev != "" {
+			os.RemoveAll(w.prev)
+		}
+		if w.cur != "" {
+			os.RemoveAll(w.cur)
+		}
+		w.prev, w.cur = "", ""
 		w.log.Add("realkill (stream mode): %d stores", n)
 		return
 	}
